@@ -18,7 +18,7 @@ META = {
 THEOREMS = ["C20.b64_roundtrip", "C20.b32_roundtrip", "C20.b32hex_roundtrip",
             "C20.b64_fragmentation_independent", "C20.b32_fragmentation_independent", "C20.b32hex_fragmentation_independent",
             "C20.decoder_writes_in_bounds", "C20.utf8_to_utf16_fragmentation_independent", "C20.utf8_to_utf16_never_reads_outside", "C20.utf8_to_utf16_source_loop_agrees", "C20.utf8_to_utf16_source_loop_never_reads_outside", "C20.utf8_to_utf16_source_loop_fragmentation_independent", "C20.utf16_to_utf8_fragmentation_independent", "C20.utf16_to_utf8_source_loop_agrees", "C20.utf16_to_utf8_never_reads_outside", "C20.utf16_to_utf8_source_loop_fragmentation_independent",
-            "C20.utf8_utf16_roundtrip_single_region", "C20.utf8_utf16_roundtrip_any_fragmentation", "C20.utf8_to_utf16_output_wellformed", "C20.utf8_to_utf16_output_accepted", "C20.utf16_to_utf8_output_wellformed", "C20.utf16_to_utf8_output_accepted", "C20.surrogates_rejected", "C20.defects_fixed",
+            "C20.utf8_utf16_roundtrip_single_region", "C20.utf8_utf16_roundtrip_any_fragmentation", "C20.utf8_to_utf16_output_wellformed", "C20.utf8_to_utf16_output_accepted", "C20.utf16_to_utf8_output_wellformed", "C20.utf16_to_utf8_output_accepted", "C20.surrogates_rejected", "C20.defects_fixed", "C20.F19_double_strip", "C20.F19_fixed",
             "Tie.b64_tables", "Tie.b32_tables", "Tie.b32hex_tables"]
 
 EDGE = [0, 1, 0x41, 0x7f, 0x80, 0x7ff, 0x800, 0xd7ff, 0xe000, 0xfeff, 0xfffe, 0xffff, 0x10000, 0x1f600, 0x10ffff]
@@ -148,7 +148,7 @@ def oracle_lines(r, n):
             cases.append(("base", fmt, b, split(r, b)))
         else:
             cs = [scalar(r) for _ in range(1 + r.below(8))]
-            if cs[0] == 0xfeff: cs[0] = 0x41
+            if r.chance(1, 6): cs = [0xfeff] * (1 + r.below(2)) + cs      # a leading byte-order mark, possibly followed by a U+FEFF character
             b = b"".join(u8(c) for c in cs)
             cases.append(("utf", r.choice(["utf16le", "utf16be"]), b, split(r, b)))
     return cases
@@ -179,6 +179,20 @@ def run(ctx):
             ctx.broken("L-fn correspondence transform.c vs model (input `%s`: real %s, model %s)" % (l[:200], rr[:80], m[:80]))
         for l in oob[:2]:
             ctx.violation("the model of the transform reads outside its input on `%s`" % l[:200], {"line": l}, signature="oob:" + l.split()[1])
+    # ---- "for arbitrary input a transform either fails or returns data the inverse transform accepts", on the real library: every
+    # non-NULL result of a UTF transform in the generated stream (well-formed and malformed inputs) is fed to the inverse transform
+    UTF = ("utf8", "utf16le", "utf16be")
+    inv, src = [], []
+    for l, o in zip(lines, real):
+        f = l.split()
+        if len(f) >= 4 and f[0] == "X2" and f[1] in UTF and f[2] in UTF and f[1] != f[2] and o not in ("NULL", "-") and not o.startswith("size") and o:
+            inv.append("X2 %s %s %s" % (f[2], f[1], o)); src.append(l)
+    inv, src = inv[:(40000 if ctx.thorough else 6000)], src[:(40000 if ctx.thorough else 6000)]
+    oi, _, _ = run_lines(h, inv)
+    rej = [(a, b) for a, b, o in zip(src, inv, oi) if o == "NULL"]
+    ctx.count("oracle inverse accepts", len(inv), len(set(inv)), samples=[{"in": src[0], "inverse": inv[0]}] if inv else [], failures=len(rej))
+    for a, b in rej[:3]:
+        ctx.violation("a transform returned data its inverse rejects: `%s` gave the input of `%s`, which returns NULL" % (a[:160], b[:160]), {"lines": [a, b]}, signature="inverse-rejects:" + a.split()[1] + ">" + a.split()[2])
     # ---- the property's own statement on the real library: round trips, independent of fragmentation
     cases = oracle_lines(ctx.rng.fork("oracle"), 20000 if ctx.thorough else 3000)
     l1 = []
@@ -198,8 +212,10 @@ def run(ctx):
     bad = 0
     for j, i in enumerate(idx):
         kind, fmt, b, parts = cases[i]
-        want = b.hex()
-        if o2[j] != want:
+        # "returns the original text (apart from a leading byte-order mark)": one leading U+FEFF may go, nothing else
+        want = (b[3:] if kind == "utf" and b[:3] == b"\xef\xbb\xbf" else b).hex()
+        got = "" if o2[j] == "-" else o2[j]          # an empty result is printed as "-"
+        if got != want and not (kind == "utf" and got == b.hex()):
             bad += 1
             if bad <= 3:
                 ctx.violation("round trip through %s lost the input: `%s` then `%s` -> %s" % (fmt, l1[i][:160], l2[j][:160], o2[j][:80]),
